@@ -165,6 +165,46 @@ def sim_case(rng, profile, kind, tier):
         c["idle"] = [[t, t + rng.randrange(50, 400)] for t in range(1000, 11000, 900)]
         c["agg"] = rng.choice([0, 15])
         c["loss"] = rng.choice([0, 10])
+    elif kind.startswith("slow"):
+        # very slow bottleneck (20..200 KB/s): once STARTUP is left the pacing rate gain*bandwidth is below / around the
+        # 64 KB/s floor of bandwidthForPacer (DRAIN: capacity < ~190 KB/s, PROBE_BW 0.75 phase: < ~85 KB/s, always: < 64 KB/s);
+        # long enough for DRAIN, several PROBE_BW cycles and PROBE_RTT (min_rtt expires after 10 s)
+        lo, hi = {"slow-lo": (20000, 60000), "slow-mid": (60000, 120000), "slow-hi": (120000, 200000)}[kind]
+        c["cap"] = rng.randrange(lo, hi)
+        c["rtt"] = rng.choice([10, 20, 40, 80, 150])
+        c["dur"] = rng.choice([16000, 26000])
+        c["loss"] = rng.choice([0, 0, 0, 10])
+        c["agg"] = rng.choice([0, 0, 10])
+        c["gap"] = rng.choice([0, 5])
+        c["nonrtx"] = rng.choice([0, 10])
+        c["queue"] = max(8 * c["mds"], (c["cap"] * c["rtt"] // 1000) * rng.choice([1, 2, 4]))
+        c["idle"] = [[12000, 12400]] if rng.random() < 0.3 else []
+    elif kind in ("fat", "smallmax", "smallmax-bdp"):
+        # gain x BDP above the maximum window, and long enough to leave STARTUP: the final min(cwnd, max) of
+        # calculateCongestionWindow is the binding clamp in DRAIN / PROBE_BW.  fat: NewBbrSender's real maximum (20000
+        # datagrams) on a 100..400 MB/s x 60..150 ms path, acks on a grid (one event per ack would be ~10^5 events per RTT);
+        # smallmax: a sender built by newBbrSender with a small configured maximum (and sometimes a small initial window);
+        # -bdp: maximum between 1.0 and 1.3 BDP (in flight reaches the BDP, so samples are not app-limited and STARTUP ends,
+        # while every profile's window gain >= 1.5 puts the target above the maximum); otherwise 0.3..2 BDP (below 1 BDP the
+        # sender usually stays in STARTUP with the window at the maximum: the cap of that branch)
+        if kind == "fat":
+            c["cap"] = rng.choice([150, 200, 300, 400]) * 1000000
+            c["rtt"] = rng.choice([80, 100, 150])
+            c["agg"] = rng.choice([4, 5, 10])
+            c["dur"] = 1500 + 22 * c["rtt"]
+            c["gap"], c["nonrtx"] = rng.choice([0, 2]), rng.choice([0, 2])
+        else:
+            c["cap"] = rng.choice([625000, 1250000, 2500000, 5000000, 10000000])
+            c["rtt"] = rng.choice([20, 40, 80])
+            bdp_pk = max(8, c["cap"] * c["rtt"] // 1000 // c["mds"])
+            f = rng.choice([100, 110, 130]) if kind == "smallmax-bdp" else rng.choice([30, 50, 80, 100, 140, 200])
+            c["maxPkts"] = max(8, bdp_pk * f // 100)
+            c["icwPkts"] = min(c["maxPkts"], rng.choice([4, 10, 32, 32, c["maxPkts"]]))
+            c["agg"] = rng.choice([0, 0, 5])
+            c["loss"] = rng.choice([0, 0, 5])
+            c["dur"] = rng.choice([12500, 24000]) if c["cap"] <= 1250000 else 4000 if c["cap"] <= 2500000 else 2500
+        bdp = c["cap"] * c["rtt"] // 1000
+        c["queue"] = max(40000, bdp * rng.choice([2, 3]))
     return {"k": "sim", "sim": c}
 
 
@@ -184,9 +224,20 @@ def gen(rng, tier):
         cases.append(sim_case(rng, prof, "lossy", tier))
     cases.append(sim_case(rng, rng.choice(PROFILES), "probertt", tier))
     cases.append(sim_case(rng, rng.choice(PROFILES), "applimited", tier))
+    # the two clamps of the property where they bind: one slow path per capacity band (profiles permuted), small
+    # configured maxima, one fat path with the real maximum
+    for prof, kind in zip(rng.sample(PROFILES, 3), ["slow-lo", "slow-mid", "slow-hi"]):
+        cases.append(sim_case(rng, prof, kind, tier))
+    for prof, kind in zip(rng.sample(PROFILES, 2), ["smallmax-bdp", "smallmax"]):
+        cases.append(sim_case(rng, prof, kind, tier))
+    cases.append(sim_case(rng, rng.choice(PROFILES), "fat", tier))
     if tier != "quick":
         for _ in range(40):
             cases.append(sim_case(rng, rng.choice(PROFILES), rng.choice(["clean", "lossy", "lossy", "probertt", "applimited"]), tier))
+        for _ in range(24):
+            cases.append(sim_case(rng, rng.choice(PROFILES), rng.choice(["slow-lo", "slow-lo", "slow-mid", "slow-hi", "smallmax", "smallmax-bdp"]), tier))
+        for _ in range(3):
+            cases.append(sim_case(rng, rng.choice(PROFILES), "fat", tier))
     for _ in range(24 * scale):
         cases.append(gen_ring(rng, rng.choice([40, 120, 200])))
     for _ in range(36 * scale):
@@ -211,6 +262,12 @@ def zl(xs):
 
 def to_coq(c, o):
     k = c["k"]
+    if k == "sim":
+        # (sim outputs carry dumps + trace, not steps)
+        if "dumps" not in o or "trace" not in o:
+            return None
+        return "CSim %s %s [%s] [%s]" % ("true" if o.get("agg") else "false", z(c["sim"]["mds"]),
+                                         ";".join(zl(t) for t in o["trace"]), ";".join(zl(d) for d in o["dumps"]))
     steps = o.get("steps")
     if steps is None:
         return None
@@ -230,11 +287,6 @@ def to_coq(c, o):
         inst = {"max": 0, "min": 1, "xev": 2}[c["inst"]]
         body = ";".join("(%s,%s)" % (zl(op), zl(st)) for op, st in zip(c["ops"], steps))
         return "CWF %d%%nat %s [%s]" % (inst, z(c["win"]), body)
-    if k == "sim":
-        if "dumps" not in o:
-            return None
-        return "CSim %s %s [%s] [%s]" % ("true" if o.get("agg") else "false", z(c["sim"]["mds"]),
-                                         ";".join(zl(t) for t in o["trace"]), ";".join(zl(d) for d in o["dumps"]))
     return None
 
 
@@ -255,8 +307,10 @@ def klass(c, o):
         return "wf:" + c["inst"]
     if k == "sim":
         st = o.get("stats") or {}
-        return "sim:%s:%s:modes=%s:rec=%s" % (c["sim"]["kind"], c["sim"]["profile"], "".join(map(str, st.get("modes", []))),
-                                            "".join(map(str, st.get("recovery", []))))
+        return "sim:%s:%s:modes=%s:rec=%s%s%s" % (c["sim"]["kind"], c["sim"]["profile"], "".join(map(str, st.get("modes", []))),
+                                                "".join(map(str, st.get("recovery", []))),
+                                                ":floor-binding" if st.get("floorEvents") else "",
+                                                ":cap-binding" if st.get("capEvents") else "")
     return k
 
 
